@@ -3756,7 +3756,7 @@ impl XmlUnexpandedEntityReference {
     }
 
     pub fn value(&self) -> error::Result<String> {
-        attr_value_from_name(self.name(), self.context())
+        expand_entity(self.name(), self.context(), &mut vec![], false)
     }
 }
 
@@ -4351,13 +4351,14 @@ fn attribute_name(name: &parser::AttributeName) -> (String, Option<String>) {
 }
 
 fn attr_value_from_name(name: &str, context: &Context) -> error::Result<String> {
-    expand_entity(name, context, &mut vec![])
+    expand_entity(name, context, &mut vec![], true)
 }
 
 fn expand_entity(
     name: &str,
     context: &Context,
     parents: &mut Vec<String>,
+    in_attribute: bool,
 ) -> error::Result<String> {
     if parents.iter().any(|v| v == name) {
         // Well-formedness constraint: No Recursion
@@ -4369,13 +4370,23 @@ fn expand_entity(
     let mut parsed = String::new();
     for value in entity.borrow().values().unwrap_or_default() {
         match &value {
-            XmlEntityValue::Character(v, r) => match r {
-                10 => parsed.push(char_from_char10(v)?),
-                16 => parsed.push(char_from_char16(v)?),
-                _ => unreachable!(),
-            },
+            XmlEntityValue::Character(v, r) => {
+                let ch = match r {
+                    10 => char_from_char10(v)?,
+                    16 => char_from_char16(v)?,
+                    _ => unreachable!(),
+                };
+                if in_attribute {
+                    // The reference was replaced when the entity declaration was read
+                    // (XML 1.0 4.5): in the replacement text it is a literal character,
+                    // whose white space is normalized in an attribute value (3.3.3).
+                    parsed.push_str(normalize_ws(ch.to_string().as_str()).as_str());
+                } else {
+                    parsed.push(ch);
+                }
+            }
             XmlEntityValue::Entity(v) => {
-                let v = expand_entity(v, context, parents)?;
+                let v = expand_entity(v, context, parents, in_attribute)?;
                 parsed.push_str(v.as_str());
             }
             XmlEntityValue::Parameter(v) => {
